@@ -538,3 +538,7 @@ mod tests {
         }
     }
 }
+
+#[cfg(futures_buffered_verif)]
+#[path = "/verif/hooks/futures_unordered.rs"]
+mod verif_hooks;
